@@ -195,6 +195,7 @@ pub async fn run_net_history(h: &NetHistory) -> Vec<(String, String)> {
     let mut held: Option<oneshot::Sender<()>> = None;
     let mut last_wait: Option<(Instant, u64)> = None;
     let mut seen: Vec<usize> = vec![];
+    let mut request_tasks: Vec<tokio::task::JoinHandle<()>> = vec![];
 
     // collect `n` announcements, acknowledging each (a Connecting announcement is held)
     async fn collect(
@@ -328,7 +329,14 @@ pub async fn run_net_history(h: &NetHistory) -> Vec<(String, String)> {
                             let _ = tokio::time::timeout(STEP_TIMEOUT, c.shutdown()).await;
                         }
                     }
-                    Ev::DropHandle(_) => handles[0] = None,
+                    Ev::DropHandle(_) => {
+                        handles[0] = None;
+                        // the caller's unresolved request futures go away with the handle
+                        for t in request_tasks.drain(..) {
+                            t.abort();
+                        }
+                        tokio::time::sleep(Duration::from_millis(2)).await;
+                    }
                     Ev::Submit { .. } => {
                         if let Some(c) = &handles[0] {
                             let id = model.next_req;
@@ -336,14 +344,14 @@ pub async fn run_net_history(h: &NetHistory) -> Vec<(String, String)> {
                             let done = done.clone();
                             // only the register read of the reference request table is used here
                             let start = ((id % 4000) as u16) * 16 + 1;
-                            tokio::spawn(async move {
+                            request_tasks.push(tokio::spawn(async move {
                                 let r = c.read_holding_registers(RequestParam::new(UnitId::new(1), Duration::from_millis(REQ_TIMEOUT)), AddressRange::try_from(start, 2).unwrap()).await;
                                 let o = match r {
                                     Ok(v) => Outcome::Ok(Values::Regs(v.into_iter().map(|x| (x.index, x.value)).collect())),
                                     Err(e) => Outcome::Err(classify(e)),
                                 };
                                 done.lock().unwrap().push((id, o));
-                            });
+                            }));
                         }
                     }
                     _ => {}
